@@ -292,7 +292,7 @@ def run_node(script, jobs, timeout=1200, args=None):
     if p.returncode != 0:
         log("node %s failed: %s" % (script, p.stderr.decode()[-800:]))
         return None
-    return [json.loads(l) for l in p.stdout.decode().splitlines() if l.strip()]
+    return [json.loads(l) for l in p.stdout.decode().split("\n") if l.strip()]
 
 
 # ------------------------------------------------------------------------------------------
